@@ -84,6 +84,11 @@ class Ob(_APO):
     def dont_persist_default_value_args():
         return ['w']
 
+    @property
+    def w(self):
+        # a public, coarser VIEW of the argument kept exactly in self._w (the stored `_w` is what identifies the object)
+        return self._w // 2 * 2 if isinstance(self._w, int) and not isinstance(self._w, bool) else self._w
+
     def tcv_canon(self):
         return ['Ob', _c(self.k), _c(self._w)]
 
